@@ -107,6 +107,7 @@ def item(flow):
         st.tuples(st.just('parenv'), st.sampled_from(PARENV), flow, inner),
         st.tuples(st.just('floatenv'), st.sampled_from(FLOATENV), flow, inner),
         st.tuples(st.just('rmenv'), st.sampled_from(RMENV), flow),
+        st.tuples(st.just('langenv'), st.sampled_from(['otherlanguage*', 'otherlanguage']), flow, inner),
         st.tuples(st.just('list'), st.sampled_from(['itemize', 'enumerate']),
                   st.lists(st.tuples(sep_any, st.one_of(st.none(), np_flow), flow), min_size=1, max_size=3),
                   sep_any),
@@ -284,7 +285,7 @@ def render_item(m, it):
             m.cur().append(('g', '0]', lo, m.n, False))
         else:
             fill(m, src)
-            m.cur().append(('g', txt, lo, m.n, src[-1].isalpha()))
+            m.cur().append(('g', txt, lo, m.n, src[-1].isalpha(), 'wordlike'))
         m.features.add('gen')
         if src.startswith(('\\gls', '\\Gls', '\\GLS')):
             m.features.add('glossary')
@@ -381,12 +382,25 @@ def render_item(m, it):
         m.emit('\\end{' + name + '}')
         m.cur().append(('v', False))
         m.features.add('float-env')
+    elif k == 'langenv':
+        name = it[1]
+        m.emit('\\begin{%s}{german}' % name)
+        m.cur().append(('v', False))
+        render_flow(m, it[2], first_sep=True)
+        emit_sep(m, it[3])
+        m.emit('\\end{%s}' % name)
+        # the unstarred environment swallows the blank behind its \\end (documented: like LaTeX)
+        m.cur().append(('v', name == 'otherlanguage'))
+        m.features.add('language-env')
+        if it[3] in ('\n', '\n  '):
+            m.features.add('own-line-brace')
     elif k == 'rmenv':
         m.emit('\\begin{' + it[1] + '}')
         sub = Model(m.flags)
         sub.wcount = m.wcount
         sub.no_math = 1
         sub.no_store = 1
+        sub.in_store = m.in_store
         sub.no_skip = True
         sub.no_detach = 0 if m.flags.get('F2_fixed') else 1
         sub.gls_used = m.gls_used
@@ -720,10 +734,14 @@ def expected_nonblank(m):
 
 
 def adjacency(flow):
-    """yield (i, j, cls) for consecutive copied-text atoms (w) i<j of one flow.
-    cls: 'P' paragraph break required; 'S' white space required, no blank line;
-    'G' only: no blank line; pairs with generated text between them carry no claim."""
+    """yield (i, j, cls) for consecutive word-like atoms i<j of one flow.
+    Between two copied words (w): 'P' paragraph break required; 'S' white space required, no
+    blank line; 'G' only: no blank line.  If one of the two is the text of a simple generating
+    macro (\\LaTeX, \\ref{..}, \\gls{..}; marked 'wordlike') only 'Sw' is claimed: a counting
+    blank between them must leave at least one blank in the output.  Pairs with other generated
+    text or a replaced sequence between them carry no claim."""
     last = None
+    last_w = False
     seps = []
     after_cw = False
     blocked = False
@@ -734,25 +752,30 @@ def adjacency(flow):
                 after_cw = False
         elif a[0] == 'v':
             after_cw = a[1]
-        elif a[0] in ('g', 'glab'):
+        elif a[0] in ('g', 'glab') and not (a[0] == 'g' and len(a) > 5 and a[5] == 'wordlike'):
             blocked = True
             after_cw = a[0] == 'g' and a[4]
         elif a[0] == 'c':
-            blocked = True          # replaced sequences may be blanks themselves (~ \,)
+            blocked = True          # replaced sequences may be blanks themselves (~ \\,)
             after_cw = False
         else:
+            is_w = a[0] == 'w'
             if last is not None and not blocked:
-                if any(c == 'P' for c, _ in seps):
-                    cls = 'P'
-                elif any(c == 'X' for c, _ in seps):
+                if any(c == 'X' for c, _ in seps):
                     cls = None
-                elif any(c == 'S' and counts for c, counts in seps):
-                    cls = 'S'
+                elif is_w and last_w:
+                    if any(c == 'P' for c, _ in seps):
+                        cls = 'P'
+                    elif any(c == 'S' and counts for c, counts in seps):
+                        cls = 'S'
+                    else:
+                        cls = 'G'
                 else:
-                    cls = 'G'
+                    cls = 'Sw' if any(counts for c, counts in seps) else None
                 if cls:
                     yield last, idx, cls
             last = idx
+            last_w = is_w
             seps = []
             blocked = False
-            after_cw = False
+            after_cw = (not is_w) and a[4]
